@@ -122,6 +122,7 @@ namespace vf::rt {
         std::atomic<std::uint64_t> site_hits[vf::site_max];
         std::atomic<int> external_actors{0};             // OS threads that may still act on the runtime
         std::atomic<int> main_waiting{0};                // main thread parked in a harness wait
+        std::atomic<int> main_waiting_for_signal{0};     // ... on an event that only runtime activity or an external actor can produce
         std::atomic<int> verdict_written{0};
         std::atomic<bool> monitor_on{false};
         std::vector<Perturb> plan;
@@ -420,6 +421,12 @@ namespace vf::rt {
                     if (!G().main_waiting.load() || G().external_actors.load() != 0 || stop.load()) { quiet = 0; continue; }
                     // no suspended task at all: the state is only stuck if the global activity count
                     // leaked (otherwise the waiting main thread is merely about to notice)
+                    if (quiet >= K && G().main_waiting_for_signal.load())
+                    {
+                        std::string extra = G().diagnose ? G().diagnose() : std::string();
+                        fail_now("no_signal_quiescent", "the main thread waits for a completion signal, but the runtime is quiescent for " + std::to_string(K) +
+                                " consecutive samples (" + d + ", activation counter unchanged) and no external actor is alive: nobody can ever deliver it; " + extra);
+                    }
                     if (quiet >= K && susp == 0 && pend == 0 && pika::threads::detail::get_global_activity_count() == 0) { quiet = 0; continue; }
                     if (quiet >= K)
                     {
@@ -442,6 +449,11 @@ namespace vf::rt {
     {
         MainWaiting() { G().main_waiting.fetch_add(1); }
         ~MainWaiting() { G().main_waiting.fetch_sub(1); }
+    };
+    struct MainWaitingForSignal
+    {
+        MainWaitingForSignal() { G().main_waiting_for_signal.fetch_add(1); G().main_waiting.fetch_add(1); }
+        ~MainWaitingForSignal() { G().main_waiting.fetch_sub(1); G().main_waiting_for_signal.fetch_sub(1); }
     };
     struct ExternalActor
     {
